@@ -24,7 +24,11 @@ Tie A, on every run:
      q2_query_bucket / q2_query_bucket_eventcount too;
   4. the ownership histories of harness/c01_own.py (storage calls interleaved with caller
      mutations at every depth) against the same model;
-  5. a static cross-check (an ast scan, not a proof): aw_query/functions.py, aw_query/query2.py and
+  5. (round 5) harness/c12_faults.py: queries whose storage read fails, after writes nobody has read; the state afterwards is
+     compared with the harness's own ledger of its writes (a dump before the query would flush the sqlite store's lazily
+     committed transaction); on sqlite a second connection checks that everything is durable after a failed read of events
+     (Props/C12sqlfault.v: the failing read's script is [Commit; ReadFails]);
+  6. a static cross-check (an ast scan, not a proof): aw_query/functions.py, aw_query/query2.py and
      aw_transform/* reach a datastore/storage only through buckets, __getitem__, metadata, get,
      get_eventcount."""
 import ast
@@ -54,7 +58,13 @@ RULE = ("boundary windows and programs first (zero-width, inverted, sub-millisec
         "replace in between, another window and back); one bucket of 10 050 events read, annotated, re-read and read again by later "
         "queries (sqlite; every back end in the thorough tier); per window a program with counts "
         "before/between/after two reads and an annotating built-in.  Every read of every program is compared at hand-out with the "
-        "direct windowed read.  non-trivial = a program that read at least one bucket with events in the window and then applied a "
+        "direct windowed read.  Round 5: windows whose UTC offset has a seconds part (fixed offsets such as +01:00:30, -00:44:30, "
+        "+00:00:00.000001; Europe/Amsterdam before 1937, Africa/Monrovia before 1972; also assigned by the program): the query raises or "
+        "equals the direct read; queries whose storage read FAILS (a stored event that ends in year 10000 -- put there by replace_last / "
+        "replace / insert --, the k-th SELECT raising at execute or after j fetched rows on sqlite, at execute on peewee, the storage read "
+        "method raising before / after its work on every back end) after 0-45 writes nobody has read yet (single and bulk inserts, "
+        "replace, replace_last, delete, in the bucket read and in the others): every bucket afterwards against the harness's own record "
+        "of what it wrote, then the same query without the fault.  non-trivial = a program that read at least one bucket with events in the window and then applied a "
         "mutating built-in or raised midway")
 
 READ_METHODS = {"buckets", "get_metadata", "get_events", "get_eventcount", "get_event"}
